@@ -295,6 +295,7 @@ def gen_st(rng, tier):
     par = kind in ("opm", "pm")
     nworkers = int(spec.split(":")[1]) if par else 0
     next_val = 1
+    used = set()
     queues = [[] for _ in range(max(nworkers, 1))]   # per-worker FIFO of blocked values
     nsent = 0
     done = False
@@ -303,11 +304,12 @@ def gen_st(rng, tier):
         if par:
             heads = [q[0] for q in queues if q]
             if r < 0.45 and not done:
-                v = rng.choice([7, next_val]) if next_val != 7 and rng.random() < 0.1 and all(7 not in q for q in queues) and next_val > 7 else next_val
-                if v == next_val:
+                # every value is sent at most once (the harness gates workers by value); the failing value 7 is
+                # sometimes sent early
+                while next_val in used:
                     next_val += 1
-                    if next_val == 7:
-                        pass
+                v = 7 if 7 not in used and next_val < 7 and rng.random() < 0.1 else next_val
+                used.add(v)
                 queues[nsent % nworkers].append(v)
                 nsent += 1
                 evs.append(f"e{v}")
